@@ -17,6 +17,14 @@ from typing import Optional
 
 
 class SimFile(io.IOBase):
+    """``SimFile(data, text=...)`` gives a text stream (an ``io.TextIOBase``) or a binary one (an
+    ``io.BufferedIOBase``, with neither ``encoding`` nor ``errors``), as ``open()`` would."""
+
+    def __new__(cls, data: bytes = b"", *a: Any, text: bool = True, **k: Any) -> "SimFile":
+        if cls is SimFile:
+            cls = SimTextFile if text else SimBinFile
+        return super().__new__(cls)
+
     def __init__(
         self,
         data: bytes,
@@ -39,8 +47,8 @@ class SimFile(io.IOBase):
         self.mode = mode
         self._on_event = on_event
         self._sink = sink
-        self.encoding = encoding
-        self.errors = errors
+        self._encoding = encoding
+        self._errors = errors
         self._seekable = seekable
         # short reads: read(n) with n > 0 returns at most max_read units, like a pipe or socket;
         # read() / read(-1) still returns everything up to EOF, as io.RawIOBase.readall does
@@ -64,7 +72,7 @@ class SimFile(io.IOBase):
         if not self._text:
             return self._data
         if self._tbuf is None:
-            self._tbuf = self._data.decode(self.encoding, self.errors)
+            self._tbuf = self._data.decode(self._encoding, self._errors)
         return self._tbuf
 
     def read(self, n: int = -1) -> Any:
@@ -86,7 +94,18 @@ class SimFile(io.IOBase):
             self._on_event("read", self.name, len(chunk))
         return chunk
 
+    def read1(self, n: int = -1) -> Any:
+        """At most one underlying read: like read(n), and a short read when no size is given."""
+        if (n is None or n < 0) and self._max_read:
+            n = self._max_read
+        return self.read(n)
+
     def readline(self, size: int = -1) -> Any:  # type: ignore[override]
+        if self.closed:
+            raise ValueError("I/O operation on closed file.")
+        if self._sink is not None:
+            raise io.UnsupportedOperation("not readable")
+        self.reads += 1
         buf = self._buf()
         rest = buf[self._pos :]
         i = rest.find("\n" if self._text else b"\n")
@@ -115,12 +134,30 @@ class SimFile(io.IOBase):
         if self._sink is None:
             raise io.UnsupportedOperation("not writable")
         self.writes += 1
-        b = s.encode(self.encoding, self.errors) if self._text else bytes(s)
+        b = s.encode(self._encoding, self._errors) if self._text else bytes(s)
         self._sink(b)
         return len(s)
 
     def flush(self) -> None:
         return None
+
+
+class SimTextFile(SimFile, io.TextIOBase):
+    @property
+    def encoding(self) -> str:  # type: ignore[override]
+        return self._encoding
+
+    @property
+    def errors(self) -> str:  # type: ignore[override]
+        return self._errors
+
+    @property
+    def newlines(self) -> None:  # type: ignore[override]
+        return None
+
+
+class SimBinFile(SimFile, io.BufferedIOBase):
+    pass
 
 
 class SimFS:
